@@ -19,7 +19,7 @@ type pruneCase struct {
 	Drop      string
 	Keep      string
 	PruneFrom string
-	Mode      int // 0 RemoveUninteresting, 1 Prune(anchored rx), 2 driver -proto (drop_frames inside the profile), 3 PruneFrom, 4 driver -prune_from
+	Mode      int // 0 RemoveUninteresting, 1 Prune(anchored rx), 2 driver -proto (drop_frames inside the profile), 3 PruneFrom, 4 driver -prune_from, 5 interactive session, "proto >out"
 }
 
 var namePool = []string{"main", "foo", ".foo", "foo(int)", "foo(int, char)", "bar", "ns::(anonymous namespace)::f", "ns::(anonymous namespace)::f(int)", "T::operator()(x)",
@@ -89,7 +89,7 @@ func genCase(t *rapid.T) *pruneCase {
 		names = append(names, f.Name)
 	}
 	names = append(names, "main", "zzz")
-	c := &pruneCase{P: p, Mode: rapid.IntRange(0, 4).Draw(t, "mode")}
+	c := &pruneCase{P: p, Mode: rapid.IntRange(0, 5).Draw(t, "mode")}
 	if rapid.IntRange(0, 9).Draw(t, "hasdrop") != 0 {
 		c.Drop = genExpr(t, names, "drop")
 		if rapid.IntRange(0, 1).Draw(t, "haskeep") == 0 {
@@ -176,7 +176,7 @@ func anchored(s string) (*regexp.Regexp, error) { return regexp.Compile("^(" + s
 func check(c *pruneCase, o *vk.Obs) []string {
 	var e vk.Errs
 	gp := *c.P
-	pruneFromMode := c.Mode >= 3
+	pruneFromMode := c.Mode == 3 || c.Mode == 4
 	if !pruneFromMode {
 		gp.DropFrames, gp.KeepFrames = c.Drop, c.Keep
 	}
@@ -196,7 +196,7 @@ func check(c *pruneCase, o *vk.Obs) []string {
 	if pruneFromMode {
 		pf, cerr = regexp.Compile(c.PruneFrom)
 	}
-	o.Label([]string{"RemoveUninteresting", "Prune", "driver-drop_frames", "PruneFrom", "driver-prune_from"}[c.Mode])
+	o.Label([]string{"RemoveUninteresting", "Prune", "driver-drop_frames", "PruneFrom", "driver-prune_from", "interactive-drop_frames"}[c.Mode])
 	if cerr != nil {
 		o.Label("invalid-expression")
 		switch c.Mode {
@@ -204,7 +204,7 @@ func check(c *pruneCase, o *vk.Obs) []string {
 			if err := p.RemoveUninteresting(); err == nil {
 				e.Addf("RemoveUninteresting accepted the invalid expression %q", c.Drop)
 			}
-		case 2:
+		case 2, 5:
 			res := pp.Run(pp.Req{Flags: map[string]string{"proto": "true", "output": "out"}, Args: []string{"src"}, Sources: map[string]*pp.Source{"src": {Prof: p}}})
 			if res.Panic != "" {
 				e.Addf("pprof panicked: %s", res.Panic)
@@ -301,12 +301,17 @@ func check(c *pruneCase, o *vk.Obs) []string {
 	case 3:
 		p.PruneFrom(pf)
 		got = p
-	case 2, 4:
+	case 2, 4, 5:
 		fl := map[string]string{"proto": "true", "output": "out"}
 		if c.Mode == 4 {
 			fl["prune_from"] = c.PruneFrom
 		}
-		res := pp.Run(pp.Req{Flags: fl, Args: []string{"src"}, Sources: map[string]*pp.Source{"src": {Prof: p}}})
+		req := pp.Req{Flags: fl, Args: []string{"src"}, Sources: map[string]*pp.Source{"src": {Prof: p}}}
+		if c.Mode == 5 {
+			// the interactive shell is a separate entry point: it keeps its own copy of the profile
+			req = pp.Req{Args: []string{"src"}, Sources: map[string]*pp.Source{"src": {Prof: p}}, Lines: []string{"proto >out"}}
+		}
+		res := pp.Run(req)
 		if res.Panic != "" {
 			return []string{"pprof panicked: " + res.Panic}
 		}
@@ -360,7 +365,7 @@ func check(c *pruneCase, o *vk.Obs) []string {
 
 func TestPropPrune(t *testing.T) {
 	vk.Main(t, vk.Spec[pruneCase]{ID: "C11", Facet: "prune", Quick: 15000, Thorough: 60000, Gen: genCase, Check: check, Journal: true,
-		Rule: "generated profiles whose function names come from a pool built to interact with name simplification (.foo, foo(int), (anonymous namespace), operator(), runtime.*) x drop/keep/prune_from expressions built from the same names (literals, 2- and 3-way alternations, prefix.*, .*suffix, invalid) x entry point (RemoveUninteresting, Prune, driver with drop_frames, PruneFrom, driver -prune_from); oracle: frame-level reference model written from the statement + frame conditions (sample count, values, labels, untouched without expressions, never empty); non-trivial = the rule removes frames from some sample and leaves another untouched"})
+		Rule: "generated profiles whose function names come from a pool built to interact with name simplification (.foo, foo(int), (anonymous namespace), operator(), runtime.*) x drop/keep/prune_from expressions built from the same names (literals, 2- and 3-way alternations, prefix.*, .*suffix, invalid) x entry point (RemoveUninteresting, Prune, driver with drop_frames, PruneFrom, driver -prune_from, interactive session); oracle: frame-level reference model written from the statement + frame conditions (sample count, values, labels, untouched without expressions, never empty); non-trivial = the rule removes frames from some sample and leaves another untouched"})
 }
 
 // pruneSig: signature of the recorded finding C11-prune-location-granularity. Prune decides per location
@@ -401,10 +406,12 @@ func checkMerged(c *pruneCase, o *vk.Obs) []string {
 	gp := *c.P
 	gp.DropFrames, gp.KeepFrames = c.Drop, c.Keep
 	p := gp.Build().Copy()
-	if c.Drop == "" {
-		return nil
+	dropExpr := c.Drop
+	if dropExpr == "" {
+		// no expression in the first source: nothing is pruned, whatever the second source says
+		dropExpr = "zzz_nothing_matches_this"
 	}
-	drop, err := anchored(c.Drop)
+	drop, err := anchored(dropExpr)
 	if err != nil {
 		return nil
 	}
@@ -444,7 +451,18 @@ func checkMerged(c *pruneCase, o *vk.Obs) []string {
 	}
 	o.LabelIf(both, "frame-matching-drop-and-keep")
 	o.NonTrivial = cut
-	res := pp.Run(pp.Req{Flags: map[string]string{"proto": "true", "output": "out"}, Args: []string{"src", "src2"}, Sources: map[string]*pp.Source{"src": {Prof: p}, "src2": {Prof: p}}})
+	// the second source is the same profile, in two thirds of the cases with other expressions in its header:
+	// the merged profile takes drop_frames and keep_frames from the first source, both of them
+	p2 := p.Copy()
+	switch c.Mode % 3 {
+	case 1:
+		p2.DropFrames, p2.KeepFrames = "", ".*"
+		o.Label("second-source-keeps-everything")
+	case 2:
+		p2.DropFrames, p2.KeepFrames = ".*", ""
+		o.Label("second-source-drops-everything")
+	}
+	res := pp.Run(pp.Req{Flags: map[string]string{"proto": "true", "output": "out"}, Args: []string{"src", "src2"}, Sources: map[string]*pp.Source{"src": {Prof: p}, "src2": {Prof: p2}}})
 	if res.Panic != "" {
 		return []string{"pprof panicked: " + res.Panic}
 	}
